@@ -29,7 +29,7 @@ with cf.ThreadPoolExecutor(max_workers=int(os.environ.get("BENIGN_WORKERS", "3")
                 pass
         rows.append((d, res.get('applies'), res.get('builds_and_tests_pass'), alarms, summ.replace('\n', ' ')[:160], res.get('error', '')))
         print(d, 'SILENT' if not alarms and not res.get('error') else 'ALARM %s %s' % (list(alarms.keys()), res.get('error', '')[:100]), flush=True)
-with open(os.path.join(root, 'RESULTS_partial.md' if PROPS else 'RESULTS.md'), 'w') as f:
+with open(os.path.join(root, os.environ.get('BENIGN_OUT') or ('RESULTS_partial.md' if PROPS else 'RESULTS.md')), 'w') as f:
     if PROPS:
         f.write('Partial re-run: only the quick checks of %s, build only (suite results as in RESULTS.md).\n\n' % PROPS)
     f.write("# Behaviour-preserving changes (silence controls)\n\nRnn-refK: refactorings written by sub-agents that saw only the repository (extract helper, split function, switch <-> if chain, loop form, renames, named constants, hoisting, early returns); Xnn: mechanical renames of unexported helpers, fields and types. Each builds and passes the existing suite. All 20 quick checks are run against each in a scratch copy.\n\n| change | suite passes | checks that raise an alarm | what it does |\n|---|---|---|---|\n")
